@@ -99,8 +99,11 @@ fn err_matches(e: &StunParseError, causes: &[Cause], n: usize) -> bool {
         (StunParseError::NotStun, Cause::NotStun) => true,
         (StunParseError::Truncated { expected, actual }, Cause::TruncHeader { actual: a }) => *expected == 20 && *actual == *a && *a == n,
         (StunParseError::Truncated { expected, actual }, Cause::TruncBody { expected: x, actual: a }) => expected == x && actual == a,
-        (StunParseError::Truncated { .. }, Cause::AttrOverrun) => true,
-        (StunParseError::Truncated { .. }, Cause::FpMalformed) => true,
+        // "truncated with the byte counts": whatever convention the counts follow (relative to the
+        // message or to the attribute), the size reported as available can never exceed the buffer,
+        // and the size reported as needed must exceed the one available
+        (StunParseError::Truncated { expected, actual }, Cause::AttrOverrun) => *actual <= n && *expected > *actual,
+        (StunParseError::Truncated { expected, actual }, Cause::FpMalformed) => *actual <= n && *expected > *actual,
         (StunParseError::TooLarge { .. }, Cause::Excess { .. }) => true,
         (StunParseError::TooLarge { .. }, Cause::FpMalformed) => true,
         (StunParseError::AttributeAfterIntegrity(t), Cause::AfterIntegrity(x)) => t.value() == *x,
@@ -250,7 +253,7 @@ pub fn compare_view(buf: &[u8], msg: &Message, view: &RefView, check_prop: &str)
 /// Run the pipeline on one delivery.
 pub fn receive(ctx: &mut Ctx, buf: &[u8], o: &PipeOpts) -> ScResult {
     // 1. demultiplexer peeking at the type (deliveries may be 0 or 1 byte long)
-    let mt = g("MessageType::from_bytes", || MessageType::from_bytes(buf).map(|t| (t.class(), t.method(), format!("{t}"))).is_ok())?;
+    let mt = g("MessageType::from_bytes", || MessageType::from_bytes(buf).map(|t| (t.class(), t.method(), t.is_response(), t.has_class(MessageClass::Error), t.has_method(t.method()), t.to_bytes(), format!("{t} {t:?}"))).is_ok())?;
     if buf.len() < 2 {
         ctx.st.inc("probe.delivery_shorter_than_2_bytes");
     }
@@ -259,6 +262,11 @@ pub fn receive(ctx: &mut Ctx, buf: &[u8], o: &PipeOpts) -> ScResult {
     let _hdr = g("MessageHeader::from_bytes", || MessageHeader::from_bytes(buf).map(|h| (h.data_length(), h.transaction_id(), h.get_type(), format!("{h:?}"))).is_ok())?;
     // 3. whole message
     let parsed = g("Message::from_bytes", || Message::from_bytes(buf))?;
+    // the TryFrom<&[u8]> entry point is the same decoder
+    let via_try = g("Message::try_from", || Message::try_from(buf).is_ok())?;
+    if via_try != parsed.is_ok() && o.oracle {
+        return Err(Violation::new("C02", "entry_points_agree", "Message::try_from", format!("Message::try_from accepts={via_try} but Message::from_bytes accepts={}", parsed.is_ok())));
+    }
     // 4. raw attribute decoder at 4-byte offsets of the body, typed decoders on what it returns
     let tid: TransactionId = crate::agentapi::tid_of(buf).unwrap_or(0).into();
     if buf.len() > 20 && o.sweep > 0 {
